@@ -1049,3 +1049,56 @@ def check_C18(tier, seed):
     rep.assumptions += ["sync.Pool is linearizable (trusted)", "user code blocks that touch package-level state are outside (menu blocks only write through the documented stores)",
                         "schedules are covered by the ownership argument, not enumerated; the race detector's view of the standard library is outside"]
     return rep.finish()
+
+
+SELFTEST = [
+    # (package dir in /repo, package name, inputs, extra options expression)
+    ("test/andnot", "andnot", ["", "a", "b", "ab", "ba", "aab", "aabbaba", "abc", "c", "dcddcc", "dcddccdd", " cdd "], ""),
+    ("test/predicates", "predicates", ["", "a", "ab", "abc", "b", "aBc", "x"], ""),
+    ("test/errorpos", "errorpos", ["", "a", "ab", "abc", "case01", "case 01 ab", "x\ny", "\u00e9"], ""),
+    ("examples/calculator", "main", ["", "1", "1+2", "(1+2)*3", "1 + 2 *", "2*(3", " 12 / 4 ", "1/0", "a"], ""),
+    ("test/labeled_failures", "labeledfailures", ["", "a", "a,b", "a b", "a,1", "1", "a,,b", "ab,cd,"], ""),
+    ("test/thrownrecover", "thrownrecover", ["", "a", "1", "case01", "case01:1", "case02:", "case03:ab1"], ""),
+    ("test/state", "state", ["", "a", "ab", "abc", "b", "abcabc"], ""),
+    ("test/staterestore/standard", "staterestore", ["", "a", "ab", "abc", "x", "abcd"], ""),
+    ("test/left_recursion/standart/leftrecursion", "leftrecursion", ["", "1", "1+2", "1+2*3", "-1", "(1+2)*3", "1++", "2*(3-1)"], ""),
+    ("test/issue_65", "issue65", ["", "a", "ab", "abc", "x"], ""),
+    ("examples/json", "json", ["", "1", "[1,2]", "{\"a\":[true,null]}", "[1,", "\"\\u00e9\"", "{\"a\":1,}"], ""),
+]
+
+
+def selftest(tier, seed):
+    """Translator validation: the engine executes the repository's own checked-in
+    parsers on concrete inputs; every result must equal the native one."""
+    rep = Report("selftest", tier, seed, "other")
+    w = Work()
+    total = ok = 0
+    for rel, pkg, inputs, _ in SELFTEST:
+        if not os.path.isdir(os.path.join(REPO, rel)):
+            continue
+        src = ["package %s\n\nimport \"fmt\"\n\nvar stInputs = []string{%s}\n" % (pkg, ", ".join(go_str_lit(s) for s in inputs))]
+        src.append('''
+func Harness_ST(n int) {
+	in := stInputs[n]
+	v, err := Parse("", []byte(in))
+	es := ""
+	if err != nil {
+		es = err.Error()
+	}
+	symNote(fmt.Sprintf("%q => %v | %s", in, v != nil, es))
+	symReach("end")
+}
+''')
+        ov = RepoOverlay(w, rel, pkg, {"zz_verif_selftest.go": "".join(src)}, ["Harness_ST"])
+        before = len(rep.unconfirmed)
+        agg = overlay_explore(rep, "selftest", ov, "Harness_ST$", 0, len(inputs) - 1, 120, "selftest:" + rel, sample_every=1, max_triage=3, max_steps=50_000_000)
+        total += agg["validated"]
+        ok += agg["validated_ok"]
+        log("selftest %-48s %d/%d inputs agree with the native run" % (rel, agg["validated_ok"], agg["validated"]))
+    rep.cov.update({"explanation": "engine vs native on the repository's checked-in parsers, concrete inputs", "evaluations": total, "distinct_nontrivial": ok})
+    print("selftest: %d of %d concrete parses agree between the engine and the native build" % (ok, total))
+    if rep.unconfirmed or rep.inconclusive or ok != total or total == 0:
+        for m in (rep.unconfirmed + rep.inconclusive)[:10]:
+            print("  ", m[:400])
+        return 2
+    return 0
